@@ -178,6 +178,11 @@ class ECollection(PyEcoreValue):
     def __init__(self, owner, efeature):
         super().__init__(owner, efeature)
 
+    def check(self, value):
+        if value is None and self.is_ref:
+            raise BadValueError(value, self.feature._eType, self.feature)
+        super().check(value)
+
     def remove_or_unset(self, value, update_opposite=True):
         self.remove(value, update_opposite)
 
